@@ -157,12 +157,14 @@ CLAIMS = {
              'points for table-driven and composite bounds (shape clauses only).',
         ref='7/C11 and 21'),
     'C12': dict(
-        technique='one-iteration loop summaries and value terms vs reviewed references; sliding-window shape rule',
+        technique='one-iteration loop summaries and value terms vs reviewed references; sliding-window shape rule; linear entailment for the periodic conversion',
         text='from_trace (whole window scanned newest-first before the push, eviction iff len > prefix), '
              'from_arrival_bound(_until) cut-off predicates incl. the keep-at-least-two-entries clause, ArrivalCurvePrefix '
              'construction / lookup / horizon-inclusive recording, prefix->Curve hand-over (horizon+1, njobs+1), the '
-             'DeltaMinIterator loop and its (n, delta-1) payload: compared with reviewed references. Not decided: domination '
-             'beyond the prefix.',
+             'DeltaMinIterator loop and its (n, delta-1) payload: compared with reviewed references (textually, or proved equal '
+             'term by term). CONV: for the periodic conversion the clause "coincides with its source" is PROVED for every interval '
+             'length and period, by linear entailment from the code of Curve::number_arrivals specialised to the one-element '
+             'delta-min vector the conversion builds. Not decided: domination beyond the prefix for the other sources.',
         ref='7/C12'),
     'C13': dict(
         technique='borrow-scope / escape / transitive may-borrow effect analysis on typed HIR + compile-fail witnesses + reference summaries',
